@@ -637,7 +637,9 @@ def compare(h, mres):
     if not isinstance(mres, list) or len(mres) != len(h.steps) + 1:
         return (0, "model-result-shape", len(h.steps), mres if not isinstance(mres, list) else len(mres))
     for i, (a, b) in enumerate(zip(h.steps, mres)):
-        if a[0] != b[0]:
+        if a[0] != b[0] and not (b[0] == 12 and a[0] in (5, 8)):
+            # model code 12 = persist_msg's INSERT given a number outside SQLite's INTEGER range: CPython reports
+            # OverflowError, or the stale IntegrityError of a preceding failed INSERT (-> DuplicateSeqNoError)
             return (i, "exception-class", a[0], b[0])
         ea, eb = norm_events(a[1]), norm_events(b[1])
         if ea != eb:
